@@ -20,9 +20,18 @@ pub enum SetOut {
     End,
 }
 
+/// `Error::Io` must expose the original error as its `source()` (C14: the original error is preserved)
+fn io_name(kind: std::io::ErrorKind, err: &dyn std::error::Error) -> String {
+    match err.source().and_then(|s| s.downcast_ref::<std::io::Error>()) {
+        Some(inner) if inner.kind() == kind => format!("{:?}", kind),
+        Some(inner) => format!("{:?} (but source() has kind {:?})", kind, inner.kind()),
+        None => format!("{:?} (but source() is None)", kind),
+    }
+}
+
 pub fn fa_err(e: &fasta::Error) -> NErr {
     match e {
-        fasta::Error::Io(e) => NErr::Io(format!("{:?}", e.kind())),
+        fasta::Error::Io(io) => NErr::Io(io_name(io.kind(), e)),
         fasta::Error::InvalidStart { line, found } => NErr::InvalidStart { line: *line as u64, found: *found, id: None },
         fasta::Error::BufferLimit => NErr::BufferLimit,
     }
@@ -30,7 +39,7 @@ pub fn fa_err(e: &fasta::Error) -> NErr {
 
 pub fn fq_err(e: &fastq::Error) -> NErr {
     match e {
-        fastq::Error::Io(e) => NErr::Io(format!("{:?}", e.kind())),
+        fastq::Error::Io(io) => NErr::Io(io_name(io.kind(), e)),
         fastq::Error::UnequalLengths { seq, qual, pos } => {
             NErr::UnequalLengths { line: pos.line, seq: *seq, qual: *qual, id: pos.id.clone() }
         }
@@ -93,6 +102,10 @@ pub trait Rdr: Sized {
     fn set_recs(set: &Self::Set) -> Vec<NRec>;
     fn set_len(set: &Self::Set) -> usize;
     fn set_buf_capacity(set: &Self::Set) -> usize;
+    fn set_is_empty(set: &Self::Set) -> bool;
+    fn set_shrink(set: &mut Self::Set);
+    /// the policy currently installed, through the `policy()` accessor
+    fn policy_kind(&self) -> crate::policy::PolKind;
     /// (line, byte)
     fn pos(&self) -> Option<(u64, u64)>;
     fn set_policy(&mut self, pol: RecPolicy);
@@ -167,6 +180,15 @@ impl<S: Read> Rdr for FaRdr<S> {
     }
     fn set_buf_capacity(set: &Self::Set) -> usize {
         set.buf_capacity()
+    }
+    fn set_is_empty(set: &Self::Set) -> bool {
+        set.is_empty()
+    }
+    fn set_shrink(set: &mut Self::Set) {
+        set.shrink_buffer_to_fit()
+    }
+    fn policy_kind(&self) -> crate::policy::PolKind {
+        self.r.as_ref().unwrap().policy().kind
     }
     fn pos(&self) -> Option<(u64, u64)> {
         self.r.as_ref().unwrap().position().map(|p| (p.line(), p.byte()))
@@ -258,6 +280,15 @@ impl<S: Read> Rdr for FqRdr<S> {
     }
     fn set_buf_capacity(set: &Self::Set) -> usize {
         set.buf_capacity()
+    }
+    fn set_is_empty(set: &Self::Set) -> bool {
+        set.is_empty()
+    }
+    fn set_shrink(set: &mut Self::Set) {
+        set.shrink_buffer_to_fit()
+    }
+    fn policy_kind(&self) -> crate::policy::PolKind {
+        self.r.as_ref().unwrap().policy().kind
     }
     fn pos(&self) -> Option<(u64, u64)> {
         let p = self.r.as_ref().unwrap().position();
